@@ -7,8 +7,8 @@ grouped_greens_functions: for every explicit subspace b, every group G returned 
 solve_sylvester: which branch serves which block pair; the right-implicit branch solves row k of Y @ P with the k-th Green's function of
     block index[0] and projects the result again (P = complement projector, C17); the left-implicit branch does the same column-wise
     with a minus sign and is available only with nonhermitian=True.
-Assumed (bounded battery): _group_close_energies returns a partition of the level indices into groups of mutually close energies;
-direct_greens_function solves (E - H) x = P_kernel v (sparse LU, external).
+Callee contracts used: _group_close_energies returns a partition of the level indices into chains of close energies, never separating two levels
+within atol (contracts/grouping.py); direct_greens_function solves (E - H) x = P_kernel v (contracts/linalg_direct.py + PV.Direct.greens_solves).
 """
 from __future__ import annotations
 
